@@ -35,6 +35,8 @@ T = {
             "Each grammar and its textual inlining are both model-checked against the reference and run on the real code; results, ranges, error positions and the generated public type declarations must agree between twins.", "inlining is done by the generator (gen/families.py inline)", "4 C13"),
     "C14": (MC, "TLC CheckExtern with mirrored oracle library + replay with recorded user-function calls",
             "User functions are a small library defined once in TLA+ and once in Rust; TLC checks machine vs reference under these oracles; real parsers must agree and every recorded extern call must be one the specification makes.", "the mirrored library (PegValues.tla / oracles.rs) is the oracle", "4 C14"),
+    "C15": (MC, "TLC evaluation of CompileFront!Verdict (one predicate per documented restriction, include-cycle detection) + every case through the three doors in isolated processes",
+            "The restriction table is a TLA+ predicate over grammars-as-data; TLC evaluates the verdict for every corpus grammar (and checks it against the generator's intent); each grammar goes through the library, Compile::run and peginator-cli in its own process (panic, stack overflow, hang, exit status, Result observed); seeded mutations, truncations and deep nestings check totality on arbitrary strings.", "totality on arbitrary strings is sampled, not enumerated; deep nesting (>= ~1500 levels) overflows the front end's stack: recorded as known findings", "4 C15"),
     "C18": (MC, "TLC over all histories of the BuildScript protocol (intended and implementation-shaped) + replay of every history against the real Compile",
             "The file protocol {edit grammar, change prefix, delete destination, run} is model-checked for Fresh / Untouched / FailSafe in its intended form; the implementation-shaped form (run_on_single_file line by line) may deviate only in the two recorded findings (TLC must still find the flaw); every TLC history is replayed against the real Compile in a scratch directory (file / explicit destination / directory mode, formatting off and on) and the predicates are evaluated on the real files after every run.", "expected bytes come from a fresh library compilation; directory mode replayed with one grammar file; two known findings (known_findings.json)", "4 C18"),
     "C19": (MC, "TLC Balanced invariant + NestingMonitor trace validation of real ParseTracer callbacks; parse_with_trace vs parse",
